@@ -23,7 +23,8 @@ Print Assumptions C06_cache_invariant.
    with the same data/configuration and an empty cache returns, provided the
    cache did not change which recipe is selected (guard 1; excludes finding
    C06-cached-stays-listed) and the selected recipe has stored required
-   features, reads only hashed ingredients and is a generic method (guard 2;
+   features, reads only hashed ingredients and is a generic method or the
+   full 3-channel crosstalk correction (guard 2;
    excludes the staleness findings). md5 is modelled as injective. *)
 Theorem C06_read_coherent_flat_partial :
   forall reg b ops f,
@@ -32,7 +33,7 @@ Theorem C06_read_coherent_flat_partial :
     select AF reg st f = select AF reg (clear st) f ->
     (forall r, select AF reg st f = Some r ->
        forallb (in_base (s_base st)) (r_feats r) = true
-       /\ uses_covered r = true /\ r_mkind r = 0
+       /\ uses_covered r = true /\ plain_method r = true
        /\ (r_rf r =? 2) = false /\ r_extra r = []) ->
     snd (read RF reg st f) = snd (read RF reg (clear st) f).
 Proof. exact history_read_coherent. Qed.
@@ -46,7 +47,7 @@ Theorem C06_read_coherent_registry_partial :
     select AF registry st f = select AF registry (clear st) f ->
     (forall r, select AF registry st f = Some r ->
        forallb (in_base (s_base st)) (r_feats r) = true
-       /\ known_incomplete r = false /\ r_mkind r = 0) ->
+       /\ known_incomplete r = false) ->
     snd (read RF registry st f) = snd (read RF registry (clear st) f).
 Proof. exact registry_read_coherent. Qed.
 Print Assumptions C06_read_coherent_registry_partial.
